@@ -29,16 +29,16 @@ HARDENING = [
     "pixee:python/timezone-aware-datetime", "pixee:python/django-json-response-type", "pixee:python/fix-math-isclose",
 ]
 
-# the target APIs of these codemods take no further arguments (`ssl.SSLContext(protocol)`, `datetime.utcnow()`,
+# the target APIs of these codemods take no further arguments (`datetime.utcnow()`,
 # `datetime.utcfromtimestamp(ts)`, `random.random()` ...): a call extended by `**extra_kw` / one more keyword is not a
 # valid use of them, so the argument-list variations are not applied there
-NO_EXTRA_ARGS = {"pixee:python/upgrade-sslcontext-tls", "pixee:python/timezone-aware-datetime", "pixee:python/secure-random", "pixee:python/limit-readline"}
+NO_EXTRA_ARGS = {"pixee:python/timezone-aware-datetime", "pixee:python/secure-random", "pixee:python/limit-readline"}
 
 
 def run(chk: Check) -> None:
     from .. import seeds
 
-    vectors = [v for v in progspace.enumerate_vectors(chk, with_args=True) if v["mult"] == 1 and v["imp"] == "asis" and v["layout"] != "bom" and v["args"] != "same-line-pair"]
+    vectors = [v for v in progspace.enumerate_vectors(chk, with_args=True) if v["mult"] == 1 and v["imp"] == "asis" and v["layout"] != "bom" and v["args"] not in ("same-line-pair", "multiline")]
     scenarios = progspace.build_batches(chk, codemods=set(HARDENING), vectors=vectors, seeds_per_codemod=chk.pick(4, 14), vectors_per_seed=chk.pick(9, 40))
     by_key = {s.key: s for s in seeds.load()}
     for scn in scenarios:
@@ -55,6 +55,53 @@ def run(chk: Check) -> None:
         scn["steps"][0]["bag_expect"] = expect
     results, verdicts = progspace.run_batches(chk, scenarios)
     c01.judge(chk, scenarios, results, verdicts, CLAUSE, "C16", "the rewrite deletes / inserts / re-orders tokens beyond the documented edit of its seed")
+    # ---- two codemods in one run: a rule-detected hardening codemod after one whose fix moves its lines; the edit of
+    # the whole file must be the sum of the two documented edits (nothing applied to a neighbouring call)
+    import json as _json
+    from collections import Counter
+
+    from .. import runner, tracecheck
+    from . import c18
+
+    pins = set(tuple(x) for x in _json.loads(c18.PINS.read_text())["seeds"]) if c18.PINS.exists() else set()
+    cids = [c for c in c18.rule_detected_codemods()]
+    pairs = [p for p in c18._pair_scenarios(chk, cids, pins) if set(p["_queue"]) & set(HARDENING)]
+    by_key2 = {}
+    for s_ in seeds.load():
+        by_key2.setdefault(s_.key, s_)
+    pres = runner.run_many(pairs)
+    ptraces = []
+    for scn, r in zip(pairs, pres):
+        first = r["steps"][0]
+        ptraces.append(first["trace"])
+        for rel, meta in scn["_metas"].items():
+            want_m, want_p = Counter(), Counter()
+            ok = True
+            for cid, key in meta["seeds"].items():
+                sd = by_key2.get(key)
+                d = deltas.delta(sd.input, sd.expected) if sd else None
+                if d is None:
+                    ok = False
+                    break
+                want_m.update(d[0])
+                want_p.update(d[1])
+            got = deltas.delta(scn["files"][rel], first["after"].get(rel, scn["files"][rel])) if ok else None
+            if got is None:
+                continue
+            chk.count()
+            chk.nontrivial(("pair", scn["_queue"], rel, meta["order"], tuple(sorted(meta["seeds"].values()))))
+            if (got[0], got[1]) != (want_m, want_p):
+                q = scn["_queue"]
+                chk.violation(f"C16|pair|{q[0].split('/')[-1]}>{q[1].split('/')[-1]}|{'+'.join(v.split('|')[-1] for v in meta['seeds'].values())}|{meta['order']}",
+                              f"run of {q[0]} then {q[1]} over a file holding seeds {meta['seeds']} ({meta['order']}): the edit of the file is not the sum of the two documented edits: "
+                              f"additionally deleted {dict(got[0] - want_m)}, additionally inserted {dict(got[1] - want_p)}, documented but not made {dict((want_m - got[0]) + (want_p - got[1]))}",
+                              {"argv": scn["steps"][0]["argv"], "program": scn["files"][rel], "after": first["after"].get(rel)})
+    if ptraces:
+        _v, stats = tracecheck.validate(ptraces)
+        for s_ in stats:
+            chk.add_tlc(s_)
+        chk.coverage["traces_validated_against_impl"] += len(ptraces)
+    chk.coverage["two_codemod_runs"] = len(pairs)
     chk.sample({"codemod": scenarios[0]["_codemod"], "documented_delta_of_first_file": list(scenarios[0]["steps"][0]["bag_expect"].values())[:1]})
     chk.assumptions += [
         "the documented edit of a codemod on a seed is the one the repository's own test expects for that seed",
